@@ -9,6 +9,10 @@ TXN_TEXT = ("The reference model (spec/Txn.tla and the modules it extends) is mo
             "thousand seeded random transactions over the small, kitchen-sink and random schemas are executed on the real "
             "transaction engine (and, for C02/C07, the real server with raw monitoring peers) and every recorded event (results, "
             "full post-state, reference index, notifications) is validated by TLC against the specification.")
+API_TEXT = (" Operations built through the client's model API: Api.tla maps a call (Create, Where / WhereAll / WhereAny . Update / Mutate / "
+            "Delete / Wait) and the cache contents to the operations it stands for; MC_Api.tla checks the contract's laws on ~1900 (database, call) "
+            "pairs; each call is made on a synchronised client of a real server and TraceApi.tla judges results and contents as those of "
+            "Txn(db, ApiOps(call, db)).")
 TXN_NOTE = ("Trusted: TLC, the Go harness' projection of models to abstract JSON (exported API only), explicit uuids supplied by "
             "the harness. Bounds: values from small pools, integers within 2^30, dyadic reals, wait with timeout 0 only.")
 
@@ -23,7 +27,7 @@ P = {
              tech="TLC model checking of Session.tla + gate-forced schedule replay + TLC trace validation of recorded sessions"),
  "C02": dict(engine="tla-txn", cat="model_checking", text=TXN_TEXT, note=TXN_NOTE, ref="6 C02",
              tech="TLC model checking of Txn.tla (Atomic) + TLC trace validation of failing transactions on the real engine and server"),
- "C03": dict(engine="tla-txn", cat="model_checking", text=TXN_TEXT, note=TXN_NOTE, ref="6 C03",
+ "C03": dict(engine="tla-txn", cat="model_checking", text=TXN_TEXT + API_TEXT, note=TXN_NOTE, ref="6 C03",
              tech="executable TLA+ reference model (Txn/Cond/Mutate) judging every recorded transaction (TLC trace validation)"),
  "C04": dict(engine="tla-txn", cat="model_checking", text=TXN_TEXT, note=TXN_NOTE, ref="6 C04",
              tech="TLC invariants RefsOK/Fix on MC_Txn + trace validation incl. reference index and reload (history independence)"),
@@ -42,7 +46,8 @@ P = {
                   "enumerates, per column kind, every (function, argument) against a table holding every value of the kind, 1024 ordered pairs of a "
                   "32-condition pool and 800 triples; each case is evaluated by RowsByCondition under 7 index configurations and by select in a "
                   "transaction on integer/string/uuid/real columns, and through WhereAll/WhereAny List and the Delete/Update operations they generate on a "
-                  "synchronised client; TLC compares every answer with Cond!Select.",
+                  "synchronised client; TLC compares every answer with Cond!Select; the selections of MC_Api's calls (Where(models) by uuid, by first and second "
+                  "index, with unset fields; WhereAll / WhereAny, also on an enum column and with an ordering function on a string) must list exactly Api!Meant.",
              note="Trusted: TLC, value instantiation from an integer universe; binding self-test in every shard.",
              tech="TLA+ reference semantics (Cond.tla) + exhaustive enumerate-and-replay under index configurations + TLC trace validation"),
  "C10": dict(engine="tla-diff", cat="model_checking", ref="6 C10",
@@ -60,10 +65,13 @@ P = {
              tech="TLC model checking of Merge.tla + enumerate-and-replay + TLC trace validation"),
  "C16": dict(engine="tla-session", cat="model_checking", ref="6 C16",
              text="Reconn.tla models loss of the connection at any point, reconnection, sequential restart of the monitors with the purge rule, and "
-                  "commits by other clients meanwhile; TLC checks Resynchronised on every interleaving for 1 and 2 monitors and refutes the pinned purge rule; "
+                  "commits by other clients meanwhile, against a server that does not know the quoted transaction id and one that does (reply = rows changed "
+                  "since; ghost state = what the quoted ids stand for); TLC checks Resynchronised on every interleaving for 1 and 2 monitors and refutes the "
+                  "pinned purge rule and the variant in which several monitors quote their ids; "
                   "TLC-enumerated fault scenarios run on a real client with the reconnect option behind a message-boundary aware fault-injecting proxy "
                   "(cut after / inside the k-th message of a direction, in steady state and again while reconnecting; silent peer + inactivity probe; "
-                  "transactions by others while away; Transact calls in flight) and TraceTxn.tla judges convergence of the cache and the "
+                  "transactions by others while away; Transact calls in flight; the proxy's since mode turns the built-in server into one that remembers "
+                  "transaction ids) and TraceTxn.tla judges convergence of the cache and the "
                   "exactly-once / at-most-once outcome of every marked Transact call.",
              note="Trusted: TLC, the proxy; convergence is awaited for 15 s. Leader-only endpoint selection is not exercised yet (see DESIGN.md).",
              tech="TLC model checking of Reconn.tla + fault-injection replay of enumerated scenarios + TLC trace validation"),
@@ -71,7 +79,8 @@ P = {
              text="Server.tla models the transact handler as a lock protocol (lock, execute, notify, commit, reply) and TLC checks no lost increment, one "
                   "winner and notification order = commit order, refuting the nolock and commitAfterUnlock variants; concurrent raw clients run contended "
                   "workloads against the real server and TraceSerial.tla lets TLC search for a serial order (respecting real time) in which the reference "
-                  "model reproduces every result, every monitor's message sequence and the final contents.",
+                  "model reproduces every result, every monitor's message sequence and the final contents; monitors established while the clients run must "
+                  "join that order at one point between request and reply (initial contents = the database there).",
              note="Trusted: TLC, per-call invocation/response stamps from one atomic counter; a failed call is placed without effect.",
              tech="TLC model checking of Server.tla + linearisation search by TLC over recorded concurrent executions"),
  "C13": dict(engine="tla-iso", cat="model_checking", ref="6 C13",
@@ -110,8 +119,9 @@ P = {
              text="From Wire.tla TLC enumerates every tree one local edit away from a valid encoding (node replaced by junk, element or member dropped, element "
                   "appended) and every small tree over the keyword atoms; each is handed to the decoders under recover (decoded values are also encoded); "
                   "corrupted transactions (dropped members, swapped kinds, every arithmetic mutator with 0) run on the transaction engine and as raw requests "
-                  "followed by an echo on a real server, a crash of the process being attributed to the request in flight; TraceWire.tla accepts value/error, "
-                  "results/error and a live server only.",
+                  "followed by an echo on a real server, a crash of the process being attributed to the request in flight; sound, foreign (unknown table / "
+                  "column, ill-typed, null rows) and corrupted update / update2 / update3 notifications are sent to a real client through the proxy; TraceWire.tla "
+                  "accepts value/error, results/error and a live server / a working client only.",
              note="Trusted: TLC; encoding/json rejects non-JSON bytes before libovsdb code runs, so trees suffice. Long or deeply nested inputs and coverage-guided "
                   "byte fuzzing are outside this technique (bounded exhaustive enumeration instead).",
              tech="TLA+ grammar with a corruption operator (Wire.tla) + exhaustive enumerate-and-replay on decoders, engine and server + TLC trace validation"),
@@ -136,7 +146,7 @@ P = {
              note="Trusted: TLC, the source walker (it refuses to answer when it meets a construct it does not know; Transact's reconnect wait loop is left to "
                   "the dynamic runs), the 10 s deadline, the Go race detector (reports touching client or cache).",
              tech="TLC model checking of Locks.tla (documented and source-extracted protocol) + gated call-sequence replay + TLC trace validation + race detector"),
- "C15": dict(engine="tla-txn", cat="model_checking", text=TXN_TEXT, note=TXN_NOTE, ref="6 C15",
+ "C15": dict(engine="tla-txn", cat="model_checking", text=TXN_TEXT + API_TEXT, note=TXN_NOTE, ref="6 C15",
              tech="type-directed name expansion in Txn.tla judging recorded transactions with named inserts"),
 }
 ENGINES = {
